@@ -235,6 +235,29 @@ static bool inRegNameChars(unsigned char c) {
         return false;
     }
 }
+static bool inNidChars(unsigned char c) {
+    // parseUrn() keeps nidChars/alphanum in function-local statics: "a<c>a:" is a valid NID iff c is in nidChars
+    const char raw[4] = {'a', static_cast<char>(c), 'a', ':'};
+    Parser::Tokenizer tok(SBuf(raw, 4));
+    AnyP::Uri u;
+    try {
+        u.parseUrn(tok);
+        return true;
+    } catch (...) {
+        return false;
+    }
+}
+static bool inUrnAlnum(unsigned char c) {
+    const char raw[3] = {static_cast<char>(c), 'a', ':'};
+    Parser::Tokenizer tok(SBuf(raw, 3));
+    AnyP::Uri u;
+    try {
+        u.parseUrn(tok);
+        return true;
+    } catch (...) {
+        return false;
+    }
+}
 static bool inHostnameChars(unsigned char c) { return c && strchr(valid_hostname_chars, c); }
 static bool inHostnameCharsU(unsigned char c) { return c && strchr(valid_hostname_chars_u, c); }
 static bool inPathChars(unsigned char c) { return PathChars()[c]; }
@@ -248,6 +271,8 @@ static void dump() {
     dumpSetByProbe("SCHEME_FIRST", inSchemeFirst);
     dumpSetByProbe("IPV6CHARS", inIpv6Chars);
     dumpSetByProbe("REGNAME", inRegNameChars);
+    dumpSetByProbe("NIDCHARS", inNidChars);
+    dumpSetByProbe("ALNUM", inUrnAlnum);
     dumpSetByProbe("HOSTNAME", inHostnameChars);
     dumpSetByProbe("HOSTNAME_U", inHostnameCharsU);
     dumpSetByProbe("PATHCHARS", inPathChars);
